@@ -151,7 +151,9 @@ def encoder_step_units(props):
     out = []
 
     def community(it):
-        a, b = sym_int(it, 'c_hi', 0, 65535), sym_int(it, 'c_lo', 0, 65535)
+        from .mp_units import sym_digits, Addr
+        a, b = sym_digits(it, 'c_hi', 2), sym_digits(it, 'c_lo', 2)
+        Addr(list(a.octs) + list(b.octs))        # registers the digits of the 32-bit value hi * 65536 + lo
         return STR.concat([STR.dec(a), ':', STR.dec(b)]), SP.cat(SP.be(a, 2), SP.be(b, 2))
     out.append(acc_step_unit('Community.construct[step]', A + 'community.Community.construct', 'community_hex', community, props))
 
